@@ -203,6 +203,12 @@ func canonLit(c string) string {
 	// order the operands of an equality
 	if i := indexTop(c, " == "); i >= 0 && indexTop(c, " && ") < 0 && indexTop(c, " || ") < 0 {
 		a, b := stripParens(c[:i]), stripParens(c[i+4:])
+		// an empty string: len(s) == 0 is s == ""
+		if a == "0" && strings.HasPrefix(b, "len(") && strings.HasSuffix(b, ")") && strings.Contains(b, "string") {
+			a, b = `""`, stripParens(b[3:])
+		} else if b == "0" && strings.HasPrefix(a, "len(") && strings.HasSuffix(a, ")") && strings.Contains(a, "string") {
+			a, b = `""`, stripParens(a[3:])
+		}
 		if b < a {
 			a, b = b, a
 		}
